@@ -383,7 +383,8 @@ def selftest_mutants(names, runs_override=None):
                 meta = json.load(f)
             prop = meta.get("check") or meta["property"]  # a few are caught by a neighbouring property's check
             index["../seeded/%s/patch.diff" % sid] = {"properties": [prop], "expect": {prop: meta["caught_by"]["signatures"]},
-                                                     "runs": {prop: meta.get("runs")} if meta.get("runs") else {}}
+                                                     "runs": {prop: meta.get("runs")} if meta.get("runs") else {},
+                                                     "expected_missed": meta.get("expected") == "missed"}
     base = "/dev/shm" if os.path.isdir("/dev/shm") else tempfile.gettempdir()
     failures = 0
     rows = []
@@ -416,6 +417,11 @@ def selftest_mutants(names, runs_override=None):
                 want = meta.get("expect", {}).get(prop, [])
                 hit = [sg for sg in sigs if any(sg.startswith(w) for w in want)] if want else sigs
                 ok = r.returncode == 1 and bool(hit)
+                if meta.get("expected_missed"):
+                    # recorded honestly as outside the workload; not a self-test failure either way
+                    print("MUTANT %-44s %s %s exit=%d (recorded as not caught)" % (name, prop, "NOW-CAUGHT" if ok else "KNOWN-MISS", r.returncode))
+                    rows.append((name, prop, True, sigs, round(time.time() - t0, 1)))
+                    continue
                 rows.append((name, prop, ok, sigs, round(time.time() - t0, 1)))
                 print("MUTANT %-44s %s %s exit=%d %.0fs signatures=%s" % (name, prop, "CAUGHT" if ok else "MISSED", r.returncode,
                                                                        time.time() - t0, sigs))
